@@ -351,6 +351,118 @@ func c11EntryPoints() *sup.Space {
 	}}
 }
 
+// ---- part 1c: calls after a limit was hit ---------------------------------------------------------------
+
+// After an evaluation stopped on a limit, every further call on the same authorizer reports the
+// limit again or - if it succeeds - answers from the complete fixpoint; it never succeeds on the
+// truncated fact store.
+func c11AfterLimit() *sup.Space {
+	e := func(a, b int64) refdl.Atom { return atom("e", rx.Int(a), rx.Int(b)) }
+	X, Y, M := alpha.X, alpha.Y, rx.Var("m")
+	chain := refdl.Block{Facts: []refdl.Atom{e(1, 2), e(2, 3), e(3, 4), e(4, 5), e(5, 6)}, Rules: []refdl.Rule{rule(atom("t", X, Y), atom("e", X, Y)), rule(atom("t", X, Y), atom("t", X, M), atom("e", M, Y))}}
+	closure, _, _ := refdl.Fixpoint(refdl.NewSet(chain.Facts...), chain.Rules)
+	var wantT []string
+	for k, a := range closure {
+		if a.Name == "t" {
+			wantT = append(wantT, "out"+strings.TrimPrefix(k, "t"))
+		}
+	}
+	sort.Strings(wantT)
+	pol := []refdl.Policy{allow(q(atom("t", rx.Int(1), rx.Int(6))))}
+	var seqs []string
+	for _, a := range "AQ" {
+		for _, b := range "AQ" {
+			seqs = append(seqs, string(a)+string(b))
+			for _, c := range "AQ" {
+				seqs = append(seqs, string(a)+string(b)+string(c))
+			}
+		}
+	}
+	type lim struct {
+		name string
+		opts []datalog.WorldOption
+	}
+	var lims []lim
+	for k := 1; k <= 6; k++ {
+		lims = append(lims, lim{fmt.Sprintf("WithMaxIterations(%d)", k), []datalog.WorldOption{datalog.WithMaxIterations(k)}})
+	}
+	for _, k := range []int{6, 9, 12, 15, 19, 20, 21} {
+		lims = append(lims, lim{fmt.Sprintf("WithMaxFacts(%d)", k), []datalog.WorldOption{datalog.WithMaxFacts(k)}})
+	}
+	where := []string{"authority", "authorizer"}
+	return &sup.Space{Name: "calls-after-a-limit", Size: func(*sup.Ctx) int64 { return int64(len(seqs) * len(lims) * len(where)) }, Run: func(i int64, w *sup.W) {
+		sq := seqs[int(i)%len(seqs)]
+		i /= int64(len(seqs))
+		lm := lims[int(i)%len(lims)]
+		wh := int(i) / len(lims)
+		var tok *biscuit.Biscuit
+		var err error
+		if wh == 0 {
+			tok, err = hx.Token(1, 5, chain, nil)
+		} else {
+			tok, err = hx.Token(1, 5, refdl.Block{}, nil)
+		}
+		human := fmt.Sprintf("transitive closure of a 5-edge chain in the %s, %s, calls %s on one authorizer", where[wh], lm.name, sq)
+		if err != nil {
+			w.Violate("C11:token-build-failed", human, err.Error(), "a token")
+			return
+		}
+		var obs []string
+		bad := ""
+		x := seq(func() {
+			a, err := biscuit.NewVerifier(tok, biscuit.WithWorldOptions(append([]datalog.WorldOption{datalog.WithMaxDuration(time.Hour)}, lm.opts...)...))
+			if err != nil {
+				bad = err.Error()
+				return
+			}
+			if wh == 1 {
+				hx.Load(a, chain, nil)
+			}
+			hx.Load(a, refdl.Block{}, pol)
+			// the token's facts and rules enter the authorizer's world with the first Authorize call;
+			// before it, Query sees the authorizer's own content only
+			loaded := wh == 1
+			for k, c := range sq {
+				want := wantT
+				if !loaded {
+					want = nil
+				}
+				if c == 'A' {
+					loaded = true
+					err := a.Authorize()
+					cls := errClass(err)
+					obs = append(obs, "Authorize="+cls)
+					if cls != "nil" && cls != "max-iterations" && cls != "max-facts" {
+						bad = fmt.Sprintf("call %d: Authorize returned %v (neither a limit nor the verdict of the complete fixpoint)", k+1, err)
+					}
+				} else {
+					ks, err := hx.QuerySet(a, rule(atom("out", X, Y), atom("t", X, Y)))
+					cls := errClass(err)
+					obs = append(obs, fmt.Sprintf("Query=%s/%d", cls, len(ks)))
+					if cls == "nil" && strings.Join(ks, " ") != strings.Join(want, " ") {
+						bad = fmt.Sprintf("call %d: Query succeeded with %d of %d facts: %v", k+1, len(ks), len(want), ks)
+					} else if cls != "nil" && cls != "max-iterations" && cls != "max-facts" {
+						bad = fmt.Sprintf("call %d: Query returned %v", k+1, err)
+					}
+				}
+				if bad != "" {
+					return
+				}
+			}
+		})
+		if c11ExecProblems(w, x, human, "after-limit") {
+			return
+		}
+		w.NontrivialByIndex()
+		if bad != "" {
+			w.Class("success-on-truncated-store")
+			w.Violate("C11:call-after-limit-succeeds-on-truncated-facts", human, bad+"; observed "+strings.Join(obs, ", "), "a run-limit sentinel, or success with the complete fixpoint")
+			return
+		}
+		w.Class(strings.Join(obs, ","))
+	}}
+}
+
 // ---- part 2: schedules and timer points -----------------------------------------------------------
 
 type c11Harness struct {
@@ -602,7 +714,7 @@ func init() {
 		SingleThread: true,
 		Overlay:      true,
 		Spaces: func(c *sup.Ctx) []*sup.Space {
-			return []*sup.Space{c11Schedules(c), c11Limits(c), c11EntryPoints()}
+			return []*sup.Space{c11Schedules(c), c11Limits(c), c11EntryPoints(), c11AfterLimit()}
 		},
 	})
 }
